@@ -9,7 +9,9 @@ import (
 	"bufio"
 	"bytes"
 	"encoding/binary"
+	"errors"
 	"fmt"
+	"io"
 	"os"
 	"path/filepath"
 	"runtime"
@@ -272,10 +274,14 @@ func verifC10Classify(maxArray int, data []byte) (res string) {
 		return "alloc"
 	}
 	if err != nil {
-		if strings.Contains(err.Error(), "invalid") {
-			return "err:invalid"
+		// the three classes callers can tell apart (create's multi-model loop ends quietly on io.EOF only)
+		switch {
+		case errors.Is(err, io.EOF):
+			return "err:eof"
+		case errors.Is(err, io.ErrUnexpectedEOF):
+			return "err:ueof"
 		}
-		return "err:eof"
+		return "err:invalid"
 	}
 	return verifSummary(g, end)
 }
